@@ -1,6 +1,7 @@
 package sim
 
 import (
+	"strings"
 	"encoding/hex"
 	"fmt"
 	"math/big"
@@ -40,6 +41,8 @@ func registerMoreOps(w *Workload) {
 	w.ops["tie_reports"] = w.opTieReport
 	w.ops["tie_vote"] = w.opTieVote
 	w.ops["op_reporter"] = w.opOperatorReporter
+	w.ops["double_report"] = w.opDoubleReport
+	w.ops["dispute_round"] = w.opDisputeRound
 }
 
 // ---------------------------------------------------------------- views used by the workload
@@ -161,7 +164,10 @@ func (w *Workload) opRegisterSpec(h int64) (*Intent, bool) {
 	w.uniq++
 	name := Pick(r, []string{"Mode", "Median", "Custom"}) + fmt.Sprint(w.uniq%5)
 	if r.Chance(0.15) {
-		name = Pick(r, []string{"SpotPrice", "spotprice", "SPOTPRICE", "TRBBridge", "trbbridge"}) // re-registration attempts (C19)
+		name = Pick(r, []string{"SpotPrice", "spotprice", "SPOTPRICE", "TRBBridge", "trbbridge", " spotprice", "SpotPrice ", "spotprice\n", "\tTRBBridge", " trbbridge "}) // re-registration attempts incl. whitespace variants (C19)
+		if sp := w.wordSpecs(""); len(sp) > 0 && r.Chance(0.4) {
+			name = Pick(r, []string{"", " ", "\n"}) + strings.ToUpper(Pick(r, sp).Type) + Pick(r, []string{"", " ", "\t"})
+		}
 	}
 	vt := Pick(r, []string{"uint256", "uint256", "uint256", "bytes32", "bool", "address", "int256", "string", "bytes", "uint256[]", "uint8"})
 	method := Pick(r, []string{"weighted-median", "weighted-mode", "weighted-mode", "Weighted-Median", "average"})
@@ -584,6 +590,14 @@ func (w *Workload) opAddEvidence(h int64) (*Intent, bool) {
 
 func (w *Workload) opUpdateTeam(h int64) (*Intent, bool) {
 	team := w.acc().ActorByAddr(w.v.TeamAddr())
+	if w.g.Avoid {
+		// known finding: the team address changing while a dispute is being voted on
+		for _, d := range w.v.Disputes() {
+			if d.D.DisputeStatus == disputetypes.Voting || d.D.DisputeStatus == disputetypes.Unresolved {
+				return nil, false
+			}
+		}
+	}
 	if w.r.Chance(0.5) && w.usable(team) {
 		return w.newIntent(team, MsgSpec{K: "update_team", T: w.r.Intn(len(w.acc().Actors))}), true
 	}
@@ -603,7 +617,11 @@ func (w *Workload) opUpdateTeam(h int64) (*Intent, bool) {
 
 func (w *Workload) privilegedMsg() MsgSpec {
 	r := w.r
-	switch r.Intn(7) {
+	switch r.Intn(8) {
+	case 7:
+		// governance lowers (or restores) the staking validator cap: validators beyond it leave the bonded set
+		nv := len(w.g.C.Cfg.ValStakes)
+		return MsgSpec{K: "staking_update_params", U: uint64(Pick(r, []int{max(1, nv-1), max(1, nv-2), nv, 100}))}
 	case 0:
 		return MsgSpec{K: "mint_init"}
 	case 1:
@@ -619,6 +637,10 @@ func (w *Workload) privilegedMsg() MsgSpec {
 			if len(qs) < n {
 				qs = append(qs, "spot:"+spotNames[i])
 			}
+		}
+		if !w.g.Avoid && r.Chance(0.3) {
+			// entries the oracle cannot open a round for: unknown query type, undecodable query data
+			qs = append(qs, Pick(r, []string{"typ:NoSuchType:" + fmt.Sprintf("%x", AbiEncode(AbiString("x"))), "raw:010203", "wd:1", "dep:3"}))
 		}
 		return MsgSpec{K: "update_cyclelist", Qs: qs}
 	case 3:
@@ -880,6 +902,65 @@ func (w *Workload) opOperatorReporter(h int64) (*Intent, bool) {
 		if w.usable(i) && !have[string(w.acc().Addr(i))] {
 			return w.newIntent(i, MsgSpec{K: "create_reporter", V: Pick(w.r, []string{"0", "0.1", "0.5"}), N: fmt.Sprint(w.g.C.Cfg.MinTrb)}), true
 		}
+	}
+	return nil, false
+}
+
+// opDoubleReport: one reporter reports two open rounds in one transaction (same reporter in several aggregates
+// of one block, micro reports of two queries at the same height).
+func (w *Workload) opDoubleReport(h int64) (*Intent, bool) {
+	reps := w.v.Reporters()
+	var open []string
+	for _, q := range w.v.Queries() {
+		if q.Meta.Expiration >= uint64(h) && (q.Meta.Amount.IsPositive() || q.Meta.CycleList) {
+			open = append(open, "raw:"+fmt.Sprintf("%x", q.Meta.QueryData))
+		}
+	}
+	if len(reps) == 0 || len(open) == 0 {
+		return nil, false
+	}
+	for _, i := range w.r.Perm(len(reps)) {
+		if !w.usable(reps[i].Actor) {
+			continue
+		}
+		q1 := Pick(w.r, open)
+		q2 := Pick(w.r, open)
+		if q2 == q1 {
+			q2 = fmt.Sprintf("dep:%d", w.r.Range(1, 5))
+		}
+		return w.newIntent(reps[i].Actor, MsgSpec{K: "submit_value", Q: q1, V: w.valueFor(w.canonName(q1))}, MsgSpec{K: "submit_value", Q: q2, V: w.valueFor(w.canonName(q2))}), true
+	}
+	return nil, false
+}
+
+// opDisputeRound: start a new round of an unresolved dispute (same report and category, the doubled fee).
+func (w *Workload) opDisputeRound(h int64) (*Intent, bool) {
+	a, ok := w.freeActor(false)
+	if !ok {
+		return nil, false
+	}
+	for _, d := range w.v.Disputes() {
+		if d.D.DisputeStatus != disputetypes.Unresolved || !d.D.Open {
+			continue
+		}
+		ev := d.D.InitialEvidence
+		name, ok := w.queryNameByID(ev.QueryId)
+		if !ok {
+			continue
+		}
+		rep, err := sdk.AccAddressFromBech32(ev.Reporter)
+		if err != nil {
+			continue
+		}
+		rs := &ReportSpec{Reporter: w.acc().ActorByAddr(rep), Power: ev.Power, QueryType: ev.QueryType, Q: name, Method: ev.AggregateMethod, Value: ev.Value,
+			TimeNs: ev.Timestamp.UnixNano(), Cyclelist: ev.Cyclelist, Block: ev.BlockNumber}
+		fee := d.D.SlashAmount // the chain caps the payment at the round fee
+		if w.r.Chance(0.15) {
+			fee = fee.QuoRaw(100) // too little
+		}
+		in := w.newIntent(a, MsgSpec{K: "propose_dispute", Rep: rs, E: int32(d.D.DisputeCategory), N: fee.String()})
+		in.Note = "new-round"
+		return in, true
 	}
 	return nil, false
 }
